@@ -33,7 +33,7 @@ CLAIMED = {
             "SAM text parsing (biogo/hts) is trusted; block = consecutive records of one name (the statement's 'one record per query name' presumes a query's records are contiguous, as aligners write them).", "5 C01"),
     "C04": ("Proved (model carries, next to every emitted record, the reference positions it mentions): the coordinate map sends position p to its own non-gap column; every position is in a reported region or in the intergenic list, never both; intergenic nuc: records iff the symbols test disjoint; the codon loop of a region (any strand/joins, length multiple of 3) mentions EXACTLY the region's positions whose symbols test disjoint (invariant over the fold); the merged list mentions p iff p is a reference position whose symbols test disjoint; after the stable sort and duplicate removal nothing is invented (soundness) and nothing is dropped (completeness, for pairwise distinct feature names: records of one feature differ in residue number, of different features in name). The aa: rule per feature: the codon loop is a function of consecutive position triples (codon_loop_spec); an aa: record for codon j is emitted exactly when the query codon's product on the feature's strand is neither X nor the reference residue, with residue j+1, both residues and the feature name (sound and complete); that product is b iff the codon consists of three IUPAC codes all of whose expansions translate to b under the standard genetic code; the GFF path's reference residues are the unique products of the reference codons. The whole command is also compared byte for byte with variants.Variants and every output row is checked by an oracle written from the statement (standard code, strands, joins).",
             "Coq proof (fold invariant over the codon loop, partition, sort/dedupe lemmas) + correspondence check + statement-level oracle",
-            "PARTIAL: the aa: theorems are per feature (getAAsPair); that every aa: record survives the merge/sort/duplicate removal is not separately stated; GenBank /translation text and the regions built by the implementation's parsers (C14) are inputs.", "5 C04"),
+            "The aa: records of the final list are exactly those the features' codon loops emit (aa_final_exact: through merge, stable sort and duplicate removal). Inputs, not verified: GenBank /translation text and the regions built by the implementation's parsers (C14).", "5 C04"),
     "C05": ("Proved for every pair of rows: the code's scan (alignment positions + the MSAToRef offset table that is 0 at reference-gap columns) equals the reference-coordinate machine indels_ref (insertion at P = reference bases to its left; deletion at 1 + reference bases to its left; one record per maximal run; start- and end-abutting deletions dropped), and the reported list is invariant under insertion of columns that are gaps in both rows. Correspondence: variants.Variants on indel-rich alignments, each also run with random double-gap columns added (outputs must be identical), every row checked against ins/del lists computed from the statement, Coq model byte for byte.",
             "Coq proof (simulation between the alignment-coordinate and reference-coordinate machines) + correspondence check + metamorphic companion + statement-level oracle",
             "FASTA-MSA form here; the SAM form goes through C11.", "5 C05"),
